@@ -18,6 +18,11 @@ use std::io::{ErrorKind, Read, Seek, SeekFrom, Write};
 use std::path::Path;
 use std::path::PathBuf;
 use std::time::Duration;
+#[cfg(rink_verif_sim)]
+use simkit::shim::fs::{read_to_string, File};
+#[cfg(rink_verif_sim)]
+use std::collections::HashMap;
+#[cfg(not(rink_verif_sim))]
 use std::{
     collections::HashMap,
     fs::{read_to_string, File},
@@ -358,6 +363,9 @@ pub fn load(config: &Config) -> Result<Context> {
 }
 
 fn read_if_current(file: File, expiration: Option<Duration>) -> Result<File> {
+    #[cfg(rink_verif_sim)]
+    use simkit::shim::time::SystemTime;
+    #[cfg(not(rink_verif_sim))]
     use std::time::SystemTime;
 
     let stats = file.metadata()?;
@@ -373,6 +381,9 @@ fn read_if_current(file: File, expiration: Option<Duration>) -> Result<File> {
 }
 
 fn download_to_file(path: &Path, url: &str, timeout: Duration) -> Result<File> {
+    #[cfg(rink_verif_sim)]
+    use simkit::shim::fs::create_dir_all;
+    #[cfg(not(rink_verif_sim))]
     use std::fs::create_dir_all;
 
     create_dir_all(path.parent().unwrap())?;
